@@ -226,22 +226,22 @@ Section Render.
                                 | Some f =>
                                     let* d' := erase (match d with
                                       | Hor => view sub (resolve (sh_height sub) Full)
-                                                 (resolve (sh_width sub) (Rng (Z.of_N (l_col k)) (Z.of_N (l_col k + l_ww k))))
-                                      | Ver => view sub (resolve (sh_height sub) (Rng (Z.of_N (l_row k)) (Z.of_N (l_row k + l_hh k))))
+                                                 (resolve (sh_width sub) (Rng (Z.of_N (l_col k)) (Z.of_N (sat_addN (l_col k) (l_ww k)))))
+                                      | Ver => view sub (resolve (sh_height sub) (Rng (Z.of_N (l_row k)) (Z.of_N (sat_addN (l_row k) (l_hh k)))))
                                                  (resolve (sh_width sub) Full)
                                       end) (r_data s) f in Ok (mkR d' (r_log s))
                                 end) = Ok s1 /\ H * W <= length (r_data s1)).
       { destruct fc as [f|]; [|eauto].
         assert (Harea : exists area warea, area = (match d with
                     | Hor => view sub (resolve (sh_height sub) Full)
-                               (resolve (sh_width sub) (Rng (Z.of_N (l_col k)) (Z.of_N (l_col k + l_ww k))))
-                    | Ver => view sub (resolve (sh_height sub) (Rng (Z.of_N (l_row k)) (Z.of_N (l_row k + l_hh k))))
+                               (resolve (sh_width sub) (Rng (Z.of_N (l_col k)) (Z.of_N (sat_addN (l_col k) (l_ww k)))))
+                    | Ver => view sub (resolve (sh_height sub) (Rng (Z.of_N (l_row k)) (Z.of_N (sat_addN (l_row k) (l_hh k)))))
                                (resolve (sh_width sub) Full)
                     end) /\ Rep H W area warea).
         { destruct d.
-          - destruct (rep_subview H W sub wsub Full (Rng (Z.of_N (l_col k)) (Z.of_N (l_col k + l_ww k))) Hmax Hsub I (usel_rng _ _))
+          - destruct (rep_subview H W sub wsub Full (Rng (Z.of_N (l_col k)) (Z.of_N (sat_addN (l_col k) (l_ww k)))) Hmax Hsub I (usel_rng _ _))
               as (w' & R & _). eauto.
-          - destruct (rep_subview H W sub wsub (Rng (Z.of_N (l_row k)) (Z.of_N (l_row k + l_hh k))) Full Hmax Hsub (usel_rng _ _) I)
+          - destruct (rep_subview H W sub wsub (Rng (Z.of_N (l_row k)) (Z.of_N (sat_addN (l_row k) (l_hh k)))) Full Hmax Hsub (usel_rng _ _) I)
               as (w' & R & _). eauto. }
         destruct Harea as (area & warea & <- & Rarea).
         destruct (erase_ok H W area warea (r_data s) f Rarea Hlen) as (d' & -> & [Le _]). cbn [bind].
